@@ -23,7 +23,7 @@ func beBytes(v uint64, n int) []byte {
 
 func c12IntPair(c *Ctx, v int64, size int64) {
 	args := [][]byte{i64(v), i64(size)}
-	var encA, encB []byte
+	var encA, encB, handedA, handedB []byte
 	var errA, errB error
 	c.Case(E_NewIntegerFromInt, args, func() Obs {
 		i, err := data.NewIntegerFromInt(int(v), int(size))
@@ -32,6 +32,7 @@ func c12IntPair(c *Ctx, v int64, size int64) {
 			return ERR()
 		}
 		encA = append([]byte(nil), i.Bytes()...)
+		handedA = i.Bytes()
 		return OK(encA)
 	})
 	c.Case(E_EncodeIntN, args, func() Obs {
@@ -40,8 +41,9 @@ func c12IntPair(c *Ctx, v int64, size int64) {
 		if err != nil {
 			return ERR()
 		}
-		encB = b
-		return OK(b)
+		encB = append([]byte(nil), b...)
+		handedB = b
+		return OK(encB)
 	})
 	// implementation-side oracle: the property itself
 	inDomain := size >= 1 && size <= 8 && v >= 0 && (size == 8 || uint64(v) < (uint64(1)<<(8*uint(size))))
@@ -56,6 +58,10 @@ func c12IntPair(c *Ctx, v int64, size int64) {
 	} else {
 		c.Check("int_reject", errA != nil && errB != nil, "EncodeIntN", args, "", fmt.Sprintf("v=%d size=%d accepted: encA=%x encB=%x", v, size, encA, encB))
 	}
+	// what was handed out is the caller's to write (and to append to): later encodings of any
+	// value must not be affected (the sweeps below are repeated at the end of the run)
+	scribble(handedA)
+	scribble(handedB)
 }
 
 func runC12(c *Ctx) {
@@ -388,7 +394,27 @@ func runC12(c *Ctx) {
 			if errA != nil {
 				return ERR()
 			}
-			return OK(a)
+			out := cp(a)
+			scribble(a)
+			scribble(b)
+			return OK(out)
 		})
+	}
+	// second pass, after the caller has written over (and behind) everything handed out so far
+	for v := int64(0); v <= 256; v++ {
+		c12IntPair(c, v, 1)
+	}
+	for v := int64(0); v <= 65536; v += 251 {
+		c12IntPair(c, v, 2)
+	}
+	for _, s := range []string{"", "a", "host", "caps", "router.version", "netId", string(make([]byte, 32)), "0123456789abcdef0123456789abcdef"} {
+		a, errA := data.ToI2PString(s)
+		b, errB := data.NewI2PString(s)
+		ok := errA == nil && errB == nil && bytes.Equal(a, b) && len(a) == len(s)+1 && int(a[0]) == len(s) && string(a[1:]) == s
+		c.Check("string_roundtrip", ok, "ToI2PString (second pass)", [][]byte{[]byte(s)}, "", fmt.Sprintf("%q encodes as %x / %x after earlier results were overwritten by the caller", s, []byte(a), []byte(b)))
+		scribble(a)
+		scribble(b)
+		a2, _ := data.ToI2PString(s)
+		c.Check("string_roundtrip", len(a2) == len(s)+1 && string(a2[1:]) == s, "ToI2PString (second pass)", [][]byte{[]byte(s)}, "", fmt.Sprintf("%q encodes as %x after the previous result was overwritten", s, []byte(a2)))
 	}
 }
